@@ -44,18 +44,24 @@ def static_classes(prog):
     """Finding classes whose static part holds for this program."""
     fn = _fn_node(prog)
     cls = {}
-    # (1) for-target also bound outside the loop and read after/outside it
+    # (1) the value of a for-loop target that is ALSO bound by another binding site (before the loop, or inside its
+    #     body by a nested loop / assignment / with-as) is read outside the loop: the loop header kills its target on
+    #     the exit edge as well (liveness), so the other binding is not wired as state
     loops = []
     for n in ast.walk(fn):
         if isinstance(n, ast.For):
             tn = set(_target_names(n.target))
-            outside_bound = _names_bound_outside(fn, n)
+            header = set(id(x) for x in ast.walk(n.target))
+            other_bound = set(a.arg for a in fn.args.args + fn.args.kwonlyargs + fn.args.posonlyargs)
+            for x in ast.walk(fn):
+                if isinstance(x, ast.Name) and isinstance(x.ctx, ast.Store) and id(x) not in header:
+                    other_bound.add(x.id)
             inside = set(id(x) for x in ast.walk(n))
             read_outside = set(x.id for x in ast.walk(fn) if isinstance(x, ast.Name) and isinstance(x.ctx, ast.Load) and id(x) not in inside)
-            if tn & outside_bound & read_outside:
+            if tn & other_bound & read_outside:
                 loops.append(n.lineno)
     if loops:
-        cls['for_target_zero_trip'] = loops
+        cls['for_target_rebound_elsewhere_and_read_after_loop'] = loops
     # (2) nested function declaring nonlocal and assigning it
     for n in ast.walk(fn):
         if isinstance(n, ast.FunctionDef) and n is not fn:
@@ -134,10 +140,8 @@ def zero_trip_lines(prog, mod, args, dec):
 
 def classify(prog, mod, args, dec, static):
     """Finding class of a failing case, or None (= new violation)."""
-    if 'for_target_zero_trip' in static:
-        z = zero_trip_lines(prog, mod, args, dec)
-        if z & set(static['for_target_zero_trip']):
-            return 'for_target_zero_trip'
+    if 'for_target_rebound_elsewhere_and_read_after_loop' in static:
+        return 'for_target_rebound_elsewhere_and_read_after_loop'
     if 'nonlocal_write_in_reaching_closure' in static:
         return 'nonlocal_write_in_reaching_closure'
     if 'nested_fn_param_leaks_into_enclosing_bound' in static:
